@@ -348,6 +348,55 @@ def nocap_sites():
     return sorted(sites)
 
 
+def argdep_functions():
+    """functions of the bundled plugins that choose the capability they check from their arguments: a local variable
+    assigned two or more different string literals that flows into ircdb.checkCapability / makeChannelCapability"""
+    found = []
+    for fn in plugin_files() + [os.path.join(REPO, 'plugins', '__init__.py')]:
+        rel = os.path.relpath(fn, REPO)
+        t = _parse(fn)
+        for f in ast.walk(t):
+            if not isinstance(f, ast.FunctionDef):
+                continue
+            lits, used = {}, set()
+            for n in ast.walk(f):
+                if isinstance(n, ast.Assign) and len(n.targets) == 1 and isinstance(n.targets[0], ast.Name) \
+                        and isinstance(n.value, ast.Constant) and isinstance(n.value.value, str):
+                    lits.setdefault(n.targets[0].id, set()).add(n.value.value)
+                if isinstance(n, ast.Call) and ast.unparse(n.func) in ('ircdb.checkCapability', 'ircdb.makeChannelCapability', 'ircdb.checkCapabilities'):
+                    for a in n.args:
+                        used.update(x.id for x in ast.walk(a) if isinstance(x, ast.Name))
+            for v, ls in sorted(lits.items()):
+                if v in used and len(ls) > 1:
+                    found.append((rel, f.name, ' '.join(sorted(ls))))
+    return sorted(found)
+
+
+def voice_shape():
+    """Channel._voice: the decision table (condition on the nick list -> capability word) and the check that follows it"""
+    t = _parse(os.path.join(REPO, 'plugins', 'Channel', 'plugin.py'))
+    f = find_def(t, '_voice', 'Channel')
+    need([a.arg for a in f.args.args] == ['self', 'irc', 'msg', 'args', 'channel', 'nicks', 'fn'], 'Channel._voice signature changed')
+    need(len(f.body) == 3, 'Channel._voice: expected decision, makeChannelCapability, check (got %d statements)' % len(f.body))
+    d = f.body[0]
+    need(isinstance(d, ast.If) and len(d.body) == 1 and isinstance(d.body[0], ast.If), 'Channel._voice: decision is no longer if nicks: (if ...: else:) else:')
+    inner = d.body[0]
+    rows = [(ast.unparse(d.test), ast.unparse(inner.test), ' ; '.join(ast.unparse(x) for x in inner.body)),
+            (ast.unparse(d.test), 'else', ' ; '.join(ast.unparse(x) for x in inner.orelse)),
+            ('else', '', ' ; '.join(ast.unparse(x) for x in d.orelse))]
+    need(ast.unparse(f.body[1]) == 'capability = ircdb.makeChannelCapability(channel, capability)', 'Channel._voice: capability is no longer made a channel capability')
+    c = f.body[2]
+    need(isinstance(c, ast.If) and ast.unparse(c.test) == 'ircdb.checkCapability(msg.prefix, capability)'
+         and ast.unparse(c.body[-1]) == 'self._sendMsgs(irc, nicks, f)' and len(c.orelse) == 1
+         and ast.unparse(c.orelse[0]) == 'irc.errorNoCapability(capability)', 'Channel._voice: the check / refusal changed')
+    # the two commands that use it pass the nick list of any('nickInChannel') through unchanged
+    for cmd, maker in (('voice', 'ircmsgs.voices'), ('devoice', 'ircmsgs.devoices')):
+        g = find_def(t, cmd, 'Channel')
+        calls = [ast.unparse(x) for x in g.body if isinstance(x, ast.Expr) and isinstance(x.value, ast.Call)]
+        need(calls == ['self._voice(irc, msg, args, channel, nicks, %s)' % maker], 'Channel.%s no longer just calls _voice: %r' % (cmd, calls))
+    return rows
+
+
 @table('T01')
 def gen_T01():
     caps = default_caps()
@@ -359,6 +408,8 @@ def gen_T01():
     cs = callsites()
     err_chain, enc_chain, proxy_raise = denial_shape()
     ncs = nocap_sites()
+    argdep = argdep_functions()
+    vrows = voice_shape()
     out = 'Require Import Base.Wire.\n'
     out += 'Definition DEFAULT_CAPS : list str :=\n  %s.\n' % clist(cstr(c) for c in caps)
     out += 'Definition GATING : list str :=\n  %s.\n' % clist(cstr(c) for c in gating)
@@ -382,4 +433,8 @@ def gen_T01():
     out += '(* file, enclosing def, Raise keyword of every errorNoCapability call *)\n'
     out += 'Definition NOCAP_SITES : list (str * str * str) :=\n  %s.\n' % clist(
         '\n   (%s, %s, %s)' % (cstr(a), cstr(b), cstr(c)) for a, b, c in ncs)
+    out += '(* plugin functions choosing the checked capability from their arguments: file, function, the literals *)\n'
+    out += 'Definition ARGDEP : list (str * str * str) :=\n  %s.\n' % clist('(%s, %s, %s)' % (cstr(a), cstr(b), cstr(c)) for a, b, c in argdep)
+    out += '(* Channel._voice decision rows: outer test, inner test, statements *)\n'
+    out += 'Definition VOICE_ROWS : list (str * str * str) :=\n  %s.\n' % clist('(%s, %s, %s)' % (cstr(a), cstr(b), cstr(c)) for a, b, c in vrows)
     return 'src/ircdb.py, src/commands.py, src/callbacks.py, plugins/*/**.py', out
